@@ -35,9 +35,14 @@ using namespace llbuild::buildsystem;
 
 CommandSignature ExternalCommand::getSignature() const {
   CommandSignature code(getName());
+  // Each variable-length list is preceded by its length, so that moving an
+  // entry into the adjacent list (e.g. a node from the inputs to the outputs)
+  // changes the signature.
+  code = code.combine(inputs.size());
   for (const auto* input: inputs) {
     code = code.combine(input->getName());
   }
+  code = code.combine(outputs.size());
   for (const auto* output: outputs) {
     code = code.combine(output->getName());
   }
